@@ -28,6 +28,16 @@ example (r : ℝ) :
       = labelScale (fun _ => (1 : ℝ)) [("0", 3)] * r :=
   degree_rule_covariant_real (fun _ => 1) (fun _ => 1 / 100) [("0", 3)] r _ (fun _ => by norm_num) (fun _ => by norm_num) rfl
 
+/-- the executable label of `np.linalg.inv`'s row (exponent −1) over ℝ: non-vacuity of `labelled_leaf_covariant` -/
+example (env : Env) (u u' x : ℝ) (hu : 0 < u) (hu' : 0 < u') :
+    ∃ s s', (Leaf.scale (fun _ => u) env ⟨true, "unyt_array", [("0", .const (-1))]⟩) = some s
+      ∧ (Leaf.scale (fun _ => u') env ⟨true, "unyt_array", [("0", .const (-1))]⟩) = some s'
+      ∧ s' * (labelScale (fun _ => u / u') [("0", -1)] * x) = s * x := by
+  refine C07.labelled_leaf_covariant (fun x : ℝ => 0 < x) real_rpow_laws _ env [("0", -1)] (by simp [Leaf.exponents, Expo.eval])
+    (fun _ => u) (fun _ => u') (fun _ => u / u') x _ (fun _ => ⟨hu', div_pos hu hu'⟩) (fun _ => ?_) rfl
+  have := hu'.ne'
+  field_simp
+
 /-- converse: one operand group, label exponent `e`, true degree `d ≠ e`; re-expressing with any factor
     `lam ≠ 1` changes the SI magnitude of every non-zero result -/
 theorem wrong_degree_breaks_covariance (u' lam r : ℝ) (d e : ℚ)
